@@ -120,7 +120,7 @@ MIN_EVALS = {
               'protocol.monitored-call': 800, 'protocol.copied-object-result==fresh-twin': 800,
               'protocol.after-assignment-result==fresh-twin': 300, 'protocol.after-raise-result==fresh-twin': 450,
               OOD_PURITY: 600, 'state.first-result-intact-after-second-call/varied-second-call': 500,
-              'state.repeat-call-identical/varied-second-call': 500, 'edge.monitored-call': 700,
+              'state.repeat-call-identical/varied-second-call': 500, 'edge.monitored-call': 1000,
               'silent-or-one-signed.monitored-call': 250},
     'thorough': {'interp.step<=target': 250000, 'interp.ratio-integer': 250000, 'interp.retained-samples': 130000,
                  'interp.subsequence': 110000, 'interp.range': 250000, 'interp.duration<2steps': 250000,
